@@ -157,12 +157,14 @@ def sensitivity(only: str | None, tier: str = "quick") -> int:
         pd = os.path.join(d, "patch.diff")
         if os.path.exists(meta) and os.path.exists(pd):
             with open(meta) as f:
-                patches.append((os.path.basename(d), json.load(f)["property"], pd))
+                m_ = json.load(f)
+            # "checked_by" / "tier": the check and tier DESIGN 10.4 names for this change, when not the agent's property / quick
+            patches.append((os.path.basename(d) + (":" + m_["tier"] if m_.get("tier") else ""), m_.get("checked_by") or m_["property"], pd))
     if only:
         patches = [x for x in patches if only in x[0] or only == x[1]]
     results = []
     for name, prop, path in patches:
-        scratch = f"/var/tmp/btcsim-scratch-{os.getpid()}-{name}"
+        scratch = f"/var/tmp/btcsim-scratch-{os.getpid()}-{name.split(':')[0]}"
         subprocess.run(["git", "-C", repo, "worktree", "add", "-q", "--detach", scratch, "HEAD"], check=True)  # noqa: S603, S607
         try:
             ap = subprocess.run(["git", "-C", scratch, "apply", path], capture_output=True, text=True, check=False)  # noqa: S603, S607
@@ -173,7 +175,7 @@ def sensitivity(only: str | None, tier: str = "quick") -> int:
             env["BTCSIM_EVIDENCE_DIR"] = f"/var/tmp/btcsim-evidence-{os.getpid()}"
             env["BTCSIM_REPLAY_DIR"] = f"/var/tmp/btcsim-replays-{os.getpid()}"
             p = subprocess.run(  # noqa: S603
-                [sys.executable, "-m", "btcsim", "check", prop, "--tier", tier],
+                [sys.executable, "-m", "btcsim", "check", prop, "--tier", name.split(":")[1] if ":" in name else tier],
                 cwd=VERIF_DIR, env=env, capture_output=True, text=True, timeout=3600, check=False,
             )
             lines = [ln for ln in p.stdout.splitlines() if ln.startswith(("VIOLATION", "  invariant", "HARNESS", "KNOWN"))]
